@@ -55,6 +55,12 @@ if flavour == "vtime":
 elif flavour == "vos":
     shim("lib/sstls/archive.go", "os", "vos")
     shim("lib/sstls/gencert.go", "os", "vos")
+elif flavour == "vclock":
+    # every clock the HTTP layer and the broker may come to use (none at the pinned commit)
+    for d in ("internal/hsrv", "internal/iobroker"):
+        for f in sorted(os.listdir(os.path.join(repo, d))):
+            if f.endswith(".go") and not f.endswith("_test.go") and re.search(r'^\t"time"$', open(os.path.join(repo, d, f)).read(), re.M):
+                shim(d + "/" + f, "time", "vtime")
 elif flavour != "base":
     sys.stderr.write("BROKEN: unknown flavour %s\n" % flavour)
     sys.exit(2)
